@@ -103,14 +103,7 @@ theorem c05_truncated (fs : List Frame) (hs : ∀ f ∈ fs, f.sendable) (wire : 
 
 /-- Unbatching the encoding of a list of messages returns the same messages in the same order. -/
 theorem c05_batch_roundtrip (ms : List Bytes) (hn : ms.length < 256 ^ 8) (hm : ∀ m ∈ ms, m.length < 256 ^ 8) :
-    decodeBatch (encodeBatch ms) = .ok ms := by
-  unfold decodeBatch encodeBatch
-  have h1 : ¬ (beBytes 8 ms.length ++ encodeBatchBody ms).length < 8 := by simp
-  simp only [h1, if_false]
-  rw [List.take_append_of_le_length (by simp), List.take_of_length_le (by simp),
-    List.drop_append_of_le_length (by simp), List.drop_of_length_le (by simp), beNat_beBytes 8 _ hn]
-  have := decodeBatchN_encode ms [] hm
-  simpa using this
+    decodeBatch (encodeBatch ms) = .ok ms := c05_batch_roundtrip_aux ms hn hm
 
 /-- Obligations on the regenerated tables, restated as properties: distinct kinds never share a tag, and
     a kind's tag, length, writer and reader agree. -/
@@ -150,6 +143,7 @@ example : encode exMsg = .ok [0,0,0,0,0,0,0,40, 4, 1, 1,0,0,0,0,0,0,0, 3,0,0,0,0
 def itemTag : Item → Option Nat
   | .frame f => some (tagOf f.kind)
   | .error _ => none
+  | .panic _ => none
 
 example : (run [] [.data [0,0,0,0,0,0,0,0], .data [7, 0,0,0,0], .data [0,0,0,1,5,9], .eof]).map itemTag
     = [some 7, some 5] := by decide +kernel
